@@ -164,6 +164,11 @@ def gen_cases(rng, tier):
             for f in (m, math.nextafter(m, math.inf), math.nextafter(m, -math.inf), m * (1 + 2 ** -13), m * (1 - 2 ** -13), m * (1 + 2 ** -12), m * (1 - 2 ** -12), m * (1 + 2 ** -11), m * (1 - 2 ** -11)):
                 if tier == 'quick' and rng.random() < 0.5: continue
                 yield {'op': 'encode_float', 'fmt': name, 'f': f.hex(), 'mode': rng.choice(['saturate', 'overflow']), 'scale': None, 'route': rng.choice(['kw', 'build', 'token', 'pack', 'setattr'])}
+    # mxint: both float64 neighbours of EVERY midpoint (k + 0.5)/64 (the sum `f + 0.5` of the earlier algorithm was itself rounded: D54)
+    for k in range(-130, 131):
+        m = (k + 0.5) / 64
+        for f in (m, math.nextafter(m, math.inf), math.nextafter(m, -math.inf)):
+            yield {'op': 'other', 'fmt': 'mxint', 'f': f.hex()}
     for _ in range(N // 2):
         k = rng.choice(['mxint', 'e8m0mxfp', 'bfloat', 'bfloatle'])
         if k == 'mxint':
